@@ -378,6 +378,7 @@ def run_history(hist):
         info["discarded"] = 1
         return None, info
     ck = Checker(sc.rows, bait)
+    original_rows = list(sc.rows)
     done = []
     try:
         state = ck.check(ov, "after lookup")
@@ -417,6 +418,20 @@ def run_history(hist):
                 info["shape"].append((op[0], type(ov.rows[0]).__name__[0], (so > 0) - (so < 0), (eo > 0) - (eo < 0)))
             else:
                 info["shape"].append((op[0], "-", 0, 0))
+        # editing an overlap result is editing a copy: the source scaffold (and with
+        # it the assembly's index) must be what it was, and a fresh lookup with the
+        # same bait must again be consistent
+        if len(sc.rows) != len(original_rows) or any(a is not b for a, b in zip(sc.rows, original_rows)):
+            raise Bad("source_scaffold_mutated",
+                      "after " + " ; ".join(str(o) for o in done) + ": the source scaffold's rows changed "
+                      f"({len(original_rows)} rows before, now {', '.join(map(str, sc.rows))})")
+        try:
+            again = ia.find_overlaps(bait)
+        except Exception:  # noqa: BLE001
+            again = None
+        if again is not None:
+            Checker(original_rows, bait).check(again, "second lookup with the same bait after " + " ; ".join(str(o) for o in done))
+            info["steps"] += 1
     except Bad as bad:
         return {"oracle": bad.oracle, "detail": bad.detail, "ops_done": done}, info
     return None, info
